@@ -315,6 +315,12 @@ func M1_outcome() {
 			tc{"lerr_" + e.id + "_before", e.rules + rich("", true), 1, "nil", "nil"},
 			tc{"lerr_" + e.id + "_after", rich("", true) + e.rules, 1, "nil", "nil"})
 	}
+	// characters Go's unicode tables call space but the rule lexer does not skip, at both ends
+	for k, ch := range []string{"\u3000", "\u00a0", "\v", "\f", "\u0085", "\u2028", "\ufeff"} {
+		cases = append(cases,
+			tc{fmt.Sprintf("uspace_lead_%d", k), ch + good, -1, "nil", "nil"},
+			tc{fmt.Sprintf("uspace_trail_%d", k), good + ch, -1, "nil", "nil"})
+	}
 	// token-level mutations of the good text
 	toks := strings.Fields(strings.NewReplacer("(", " ( ", ")", " ) ", ",", " , ").Replace(good))
 	join := func(ts []string) string { return strings.Join(ts, " ") }
@@ -366,6 +372,38 @@ func M1_outcome() {
 		fmt.Fprintf(&b, "\n// concrete text %s\nfunc %s() {\n\trejected := zzFiveWays(%q, %s, %s)\n\t_ = rejected\n\tvnd.Reach(\"executed\")\n%s}\n", c.id, name, c.text, c.full, c.incr, verdict)
 		fam.Instances = append(fam.Instances, Instance{Func: name, Stratum: "text:" + strings.SplitN(c.id, "_", 2)[0], Desc: "text " + c.id, Text: c.text, Expect: []string{"executed"}})
 	}
+	// base sets of one rule: an incremental text that changes the only rule's salience
+	b.WriteString(`
+func M3_single_rule_incremental() {
+	q := vnd.Int64("q")
+	text := zzRule("a", 2, vnd.SalText(q))
+	// builder with exactly one rule
+	dc := context.NewDataContext()
+	for k, v := range zzApis() {
+		dc.Add(k, v)
+	}
+	rb := builder.NewRuleBuilder(dc)
+	zzMust(rb.BuildRuleFromString(zzRule("a", 1, "9")), "one-rule build")
+	e1 := rb.BuildRuleWithIncremental(text)
+	vnd.Assert(e1 == nil, "this text is accepted")
+	zzWantVersions(zzVersions(rb), map[string]int64{"a": 2}, "incremental build over a one-rule set")
+	// two rules, one removed, then the survivor changes salience
+	rb2 := zzBuilder()
+	zzMust(rb2.RemoveRules([]string{"b"}), "removal")
+	e2 := rb2.BuildRuleWithIncremental(text)
+	vnd.Assert(e2 == nil, "this text is accepted")
+	zzWantVersions(zzVersions(rb2), map[string]int64{"a": 2}, "incremental build over a set reduced to one rule")
+	// the pool's own merge
+	gp, e := NewGenginePool(1, 2, SortModel, zzRule("a", 1, "9"), zzApis())
+	zzMust(e, "pool construction")
+	e3 := gp.UpdatePooledRulesIncremental(text)
+	vnd.Assert(e3 == nil, "pool incremental update accepts exactly what the builder accepts")
+	zzWantVersions(zzInstanceVersions(gp, 0), map[string]int64{"a": 2}, "pool incremental update")
+	zzWantVersions(zzInstanceVersions(gp, 1), map[string]int64{"a": 2}, "pool incremental update (additional instance)")
+	vnd.Reach("executed")
+}
+`)
+	fam.Instances = append(fam.Instances, Instance{Func: "M3_single_rule_incremental", Stratum: "single-rule", Desc: "incremental text changing the salience of the only installed rule", Expect: []string{"executed"}})
 	finishPoolFamily(fam, "C10", b.String())
 	return fam, nil
 }
